@@ -100,6 +100,9 @@ func (s *Subscription) delete(ctx context.Context) error {
 	switch {
 	case err != nil:
 		return err
+	case len(res.Results) == 0:
+		// a response may carry fewer results than subscriptions were named
+		return ua.StatusBadUnexpectedError
 	case res.Results[0] == ua.StatusOK:
 		s.itemsMu.Lock()
 		s.items = make(map[uint32]*monitoredItem)
@@ -162,6 +165,11 @@ func (s *Subscription) Monitor(ctx context.Context, ts ua.TimestampsToReturn, it
 
 	if err != nil {
 		return nil, err
+	}
+
+	// the server must answer with one result per item
+	if len(res.Results) != len(items) {
+		return res, ua.StatusBadUnknownResponse
 	}
 
 	// store monitored items
@@ -485,6 +493,9 @@ func (s *Subscription) recreate_monitoredItems(ctx context.Context) error {
 			if status := result.StatusCode; status != ua.StatusOK {
 				return status
 			}
+		}
+		if len(res.Results) != len(items) {
+			return ua.StatusBadUnknownResponse
 		}
 
 		s.itemsMu.Lock()
